@@ -58,18 +58,26 @@ class TieredInterval:
     def __lt__(self, other: TieredInterval):
         assert len(self) == len(other)
         assert self.pre_length == other.pre_length
+        # Where one interval still adds to the time's tier and the other
+        # already replaces it, equal tiers mean that the replacing interval
+        # is smaller for all times with a non-zero entry in that tier (and
+        # tied for the others, in which case the later tiers decide).
+        s_smaller = False
+        o_smaller = False
         for i, (s, o) in enumerate(zip(self.tiers, other.tiers)):
             s_add_o_ext = other.cutoff <= i < self.cutoff
             o_add_s_ext = self.cutoff <= i < other.cutoff
             if s < o:
-                if s_add_o_ext:
+                if s_add_o_ext or o_smaller:
                     assert False, f"{self} and {other} are incomparable"
                 return True
             if s > o:
-                if o_add_s_ext:
+                if o_add_s_ext or s_smaller:
                     assert False, f"{self} and {other} are incomparable"
                 return False
-        return False
+            s_smaller = s_smaller or o_add_s_ext
+            o_smaller = o_smaller or s_add_o_ext
+        return s_smaller
 
     def __repr__(self):
         return (
